@@ -472,6 +472,26 @@ func TestC16(t *testing.T) {
 					failf(rt, c, "C16 maps extracted from a %s witness of %s do not carry another value of the type: %v\n witness: %s\n second: %s", fill, typ.Name(), err, zoo.Describe(witness, 300), zoo.Describe(second, 300))
 				}
 				r.Eval()
+				// the witness handed over the other way (by value instead of through a pointer, or the reverse) is a
+				// value of the type as well: the type map from one form works with the name map from the other
+				if typ.Kind() == reflect.Struct && fill != "nil-pointer" {
+					var other interface{} = w.Interface()
+					if byPtr {
+						other = w.Elem().Interface()
+					}
+					var tmO map[string]reflect.Type
+					var nmO map[string]string
+					if pv, st := guard(func() { tmO, nmO = hessian.TypeMapFrom(other), hessian.NameMapFrom(other) }); pv != nil {
+						failf(rt, c, "C16 extraction from the witness of %s in its other form panicked: %v [%s]", typ.Name(), pv, st)
+					}
+					if err := roundTripWith(second, tmO, copyNames(nm)); err != nil {
+						failf(rt, c, "C16 %s: the name map from the witness (by pointer: %v) and the type map from the same witness in the other form do not carry another value of the type: %v\n witness: %s", typ.Name(), byPtr, err, zoo.Describe(witness, 300))
+					}
+					if err := roundTripWith(second, tm, nmO); err != nil {
+						failf(rt, c, "C16 %s: the type map from the witness (by pointer: %v) and the name map from the same witness in the other form do not carry another value of the type: %v\n witness: %s", typ.Name(), byPtr, err, zoo.Describe(witness, 300))
+					}
+					r.Eval()
+				}
 			}
 		}
 		behind := len(rc.structs) > 1
